@@ -11,6 +11,9 @@ impl Prop for C06 {
     fn id(&self) -> &'static str {
         "C06"
     }
+    fn fuzz_target(&self) -> Option<&'static str> {
+        Some("fz_choices")
+    }
     fn stream_len(&self, _tier: Tier) -> usize {
         600
     }
